@@ -2,6 +2,9 @@
 From FlacMeta Require Import Bytes Bytes_proofs Blocks Blocks_proofs Cue CueRender Cue_proofs.
 Open Scope N_scope.
 
+Lemma pow2_32 : 2 ^ 32 = 4294967296.
+Proof. reflexivity. Qed.
+
 (* ---- (0..n).map(read).collect against an encoder *)
 Section ParseNCodec.
   Context {T : Type}.
@@ -75,7 +78,7 @@ Lemma write_vc_strings_ok : forall l bs, write_vc_strings l = Ok bs ->
 Proof.
   induction l as [|x l IH]; intros bs H; cbn [write_vc_strings] in H.
   - apply Ok_inj in H. subst. split; [reflexivity|constructor].
-  - unfold write_vc_string in H. change (2 ^ 32) with 4294967296 in H.
+  - unfold write_vc_string in H. rewrite pow2_32 in H.
     destruct (N.ltb_spec (lenN x) 4294967296) as [Hx|]; [|discriminate]. cbn [bind] in H.
     destruct (write_vc_strings l) as [b| |] eqn:W; cbn [bind] in H; try discriminate.
     apply Ok_inj in H. subst. destruct (IH b eq_refl) as [-> F]. split; [reflexivity|constructor; assumption].
@@ -84,7 +87,7 @@ Lemma write_vc_strings_good : forall l, Forall (fun s => lenN s < 4294967296) l 
   write_vc_strings l = Ok (enc_all vc_enc l).
 Proof.
   induction 1 as [|x l Hx Hl IH]; [reflexivity|]. cbn [write_vc_strings enc_all]. unfold write_vc_string.
-  change (2 ^ 32) with 4294967296. destruct (N.ltb_spec (lenN x) 4294967296); [|lia]. cbn [bind]. rewrite IH. reflexivity.
+  rewrite ?pow2_32. destruct (N.ltb_spec (lenN x) 4294967296); [|lia]. cbn [bind]. rewrite IH. reflexivity.
 Qed.
 
 Lemma lenN_enc_all_ge {T} (enc : T -> list N) k : (forall x, k <= lenN (enc x)) ->
@@ -95,7 +98,7 @@ Qed.
 
 Lemma vorbis_write_read v bs r : ty_vorbis v -> write_vorbis v = Ok bs -> read_vorbis utf8_valid (bs ++ r) = Ok (v, r).
 Proof.
-  intros [Uv Uf] W. unfold write_vorbis in W. unfold write_vc_string in W. change (2 ^ 32) with 4294967296 in W.
+  intros [Uv Uf] W. unfold write_vorbis in W. unfold write_vc_string in W. rewrite ?pow2_32 in W.
   destruct (N.ltb_spec (lenN (vc_vendor v)) 4294967296) as [Lv|]; [|discriminate]. cbn [bind] in W.
   destruct (N.ltb_spec (lenN (vc_fields v)) 4294967296) as [Lf|]; [|discriminate].
   destruct (write_vc_strings (vc_fields v)) as [b| |] eqn:Ws; cbn [bind] in W; try discriminate.
@@ -123,7 +126,7 @@ Proof.
   destruct E as (Ln & G & Len & _). unfold pret in H. apply Ok_inj in H. injection H as <- <-.
   split.
   - split; [exact Uv|]. rewrite Forall_forall in *. intros x Hx. apply G, Hx.
-  - unfold write_vorbis, write_vc_string. cbn [vc_vendor vc_fields]. change (2 ^ 32) with 4294967296.
+  - unfold write_vorbis, write_vc_string. cbn [vc_vendor vc_fields]. rewrite ?pow2_32.
     destruct (N.ltb_spec (lenN a) 4294967296); [|lia]. cbn [bind]. rewrite Ln.
     destruct (N.ltb_spec a0 4294967296); [|lia].
     rewrite write_vc_strings_good by (rewrite Forall_forall in *; intros x Hx; apply G, Hx). cbn [bind].
@@ -150,7 +153,7 @@ Qed.
 
 Lemma picture_write_read x bs r : ty_picture x -> write_picture x = Ok bs -> read_picture utf8_valid (bs ++ r) = Ok (x, r).
 Proof.
-  intros (T1 & T2 & T3 & T4 & T5 & T6 & T7) W. unfold write_picture, write_prefixed in W. change (2 ^ 32) with 4294967296 in W.
+  intros (T1 & T2 & T3 & T4 & T5 & T6 & T7) W. unfold write_picture, write_prefixed in W. rewrite ?pow2_32 in W.
   destruct (N.ltb_spec (lenN (pic_mime x)) 4294967296) as [L1|]; [|discriminate]. cbn [bind] in W.
   destruct (N.ltb_spec (lenN (pic_desc x)) 4294967296) as [L2|]; [|discriminate]. cbn [bind] in W.
   destruct (N.ltb_spec (lenN (pic_data x)) 4294967296) as [L3|]; [|discriminate]. cbn [bind] in W.
@@ -186,7 +189,7 @@ Proof.
   unfold pret in H. apply Ok_inj in H. injection H as <- <-.
   split; [unfold ty_picture; cbn; repeat split; assumption|].
   unfold write_picture, write_prefixed. cbn [pic_type pic_mime pic_desc pic_w pic_h pic_depth pic_colors pic_data].
-  change (2 ^ 32) with 4294967296.
+  rewrite ?pow2_32.
   destruct (N.ltb_spec (lenN a0) 4294967296); [|lia]. destruct (N.ltb_spec (lenN a1) 4294967296); [|lia].
   destruct (N.ltb_spec (lenN a6) 4294967296); [|lia]. cbn [bind]. eexists. split; [reflexivity|].
   rewrite <- !app_assoc. reflexivity.
@@ -202,9 +205,12 @@ Variable utf8_valid : list N -> bool.
 Hypothesis utf8_ascii : forall s, Forall (fun b => b < 128) s -> utf8_valid s = true.
 
 Lemma lenN_write_flags a b : lenN (write_flags a b) = 1.
-Proof. destruct a, b; reflexivity. Qed.
+Proof. destruct a, b; vm_compute; reflexivity. Qed.
 Lemma read_flags_write a b rest : read_flags (write_flags a b ++ rest) = Ok ((a, b), rest).
-Proof. destruct a, b; reflexivity. Qed.
+Proof.
+  unfold read_flags. rewrite (pbind_eq (take 1) _ _ (write_flags a b) rest) by (apply take_app_len, lenN_write_flags).
+  destruct a, b; vm_compute; reflexivity.
+Qed.
 Lemma read_flags_inv s a b r : read_flags s = Ok ((a, b), r) -> exists c, s = c ++ r /\ lenN c = 1.
 Proof.
   unfold read_flags. intros H. inv_bind H. apply take_ok in E. destruct E as [-> L].
@@ -212,6 +218,9 @@ Proof.
   destruct (rd 1 (bits_of_bytes a0)) as [[x y]|]; [|discriminate]. destruct (rd 1 y) as [[z w]|]; [|discriminate].
   unfold pret in H. apply Ok_inj in H. injection H as _ _ <-. reflexivity.
 Qed.
+
+Lemma filter_length_le {A} (f : A -> bool) (l : list A) : (length (filter f l) <= length l)%nat.
+Proof. induction l as [|x l IH]; cbn [filter length]; [lia|]. destruct (f x); cbn [length]; lia. Qed.
 
 (* ---- ISRC *)
 Definition ty_isrc (i : isrc) : Prop := match i with IsrcNone => True | IsrcStr s => wf_isrc s end.
@@ -300,10 +309,10 @@ Proof.
   destruct (existsb (fun b => b =? 45) s) eqn:Ex; [|reflexivity]. exfalso.
   apply existsb_exists in Ex. destruct Ex as (c & Hc & Ec). apply N.eqb_eq in Ec. subst c.
   (* a dash is removed, so the filtered string is strictly shorter *)
-  assert (Hlt : (length (filter (fun b => negb (b =? 45)) s) < length s)%nat).
+  assert (Hlt : (length (filter (fun b : N => negb (N.eqb b 45%N)) s) < length s)%nat).
   { clear -Hc. induction s as [|y q IH]; [contradiction|]. cbn [filter length]. destruct Hc as [->|Hc].
-    - cbn. pose proof (filter_length_le (fun b => negb (b =? 45)) q). lia.
-    - specialize (IH Hc). destruct (negb (y =? 45)); cbn [length]; lia. }
+    - cbn. pose proof (filter_length_le (fun b : N => negb (N.eqb b 45%N)) q). lia.
+    - specialize (IH Hc). destruct (negb (N.eqb y 45%N)); cbn [length]; lia. }
   rewrite !lenN_length in *. lia.
 Qed.
 
@@ -316,5 +325,442 @@ Proof.
   - destruct (utf8_valid a); [|discriminate]. destruct (isrc_from_str a) as [x|] eqn:Ei; [|discriminate].
     unfold pret in H. apply Ok_inj in H. injection H as <- <-.
     apply isrc_from_str_inv in Ei. destruct Ei as (W & _ & _). split; [exact W|eauto].
+Qed.
+
+(* ---- offsets and index points *)
+Definition ty_offset (cdda : bool) (o : N) : Prop :=
+  o < 18446744073709551616 /\ (cdda = true -> o mod 588 = 0).
+Definition ty_index (cdda : bool) (i : index) : Prop := ty_offset cdda (ix_off i) /\ ix_num i < 256.
+
+Lemma read_offset_write cdda o rest : ty_offset cdda o -> read_offset cdda (be_bytes 8 o ++ rest) = Ok (o, rest).
+Proof.
+  intros [B M]. unfold read_offset. rewrite (pbind_eq (read_be 8) _ _ o rest) by (apply read_be8_app, B).
+  destruct cdda; [|reflexivity]. unfold SAMPLES_PER_SECTOR. rewrite M by reflexivity. reflexivity.
+Qed.
+Lemma read_offset_inv cdda s o r : Forall byte s -> read_offset cdda s = Ok (o, r) ->
+  ty_offset cdda o /\ s = be_bytes 8 o ++ r.
+Proof.
+  intros Hs H. unfold read_offset in H. inv_bind H. apply (read_be_ok 8) in E; [|exact Hs]. destruct E as [-> B].
+  change (256 ^ N.of_nat 8) with 18446744073709551616 in B. unfold SAMPLES_PER_SECTOR in H.
+  destruct cdda.
+  - destruct (N.eqb_spec (a mod 588) 0) as [M|]; [|discriminate]. unfold pret in H. apply Ok_inj in H. injection H as <- <-.
+    split; [split; auto|reflexivity].
+  - unfold pret in H. apply Ok_inj in H. injection H as <- <-. split; [split; [exact B|discriminate]|reflexivity].
+Qed.
+
+Lemma lenN_write_index i : lenN (write_index i) = 12.
+Proof. unfold write_index. rewrite !lenN_app, !lenN_be_bytes, lenN_zerosN. reflexivity. Qed.
+
+Lemma read_index_write cdda i rest : ty_index cdda i -> read_index cdda (write_index i ++ rest) = Ok (i, rest).
+Proof.
+  intros [To Tn]. unfold read_index, write_index. rewrite <- !app_assoc.
+  rewrite (pbind_eq (read_offset cdda) _ _ (ix_off i) _) by (apply read_offset_write, To).
+  rewrite (pbind_eq (read_be 1) _ _ (ix_num i) _) by (apply read_be1_app, Tn).
+  rewrite (pbind_eq (skip 3) _ _ tt rest) by (apply skip_app_len, lenN_zerosN). destruct i; reflexivity.
+Qed.
+Lemma read_index_inv cdda s i r : Forall byte s -> read_index cdda s = Ok (i, r) ->
+  ty_index cdda i /\ exists c, s = c ++ r /\ lenN c = lenN (write_index i).
+Proof.
+  intros Hs H. unfold read_index in H. inv_bind H. apply read_offset_inv in E; [|exact Hs]. destruct E as [To ->].
+  apply Forall_app_r in Hs. inv_bind H. apply (read_be_ok 1) in E; [|exact Hs]. destruct E as [-> B].
+  change (256 ^ N.of_nat 1) with 256 in B. inv_bind H. destruct a1. apply skip_ok in E. destruct E as (c & -> & Lc).
+  unfold pret in H. apply Ok_inj in H. injection H as <- <-. split; [split; assumption|].
+  exists (be_bytes 8 a ++ be_bytes 1 a0 ++ c). rewrite <- !app_assoc. split; [reflexivity|].
+  rewrite lenN_write_index, !lenN_app, !lenN_be_bytes, Lc. reflexivity.
+Qed.
+
+(* ---- IndexVec *)
+Definition ty_indexvec (cdda : bool) (iv : indexvec) : Prop :=
+  let l := indexvec_list iv in
+  Forall (ty_index cdda) l /\ is_contiguous index_valid_first index_is_next l = true /\
+  lenN l <= (if cdda then CDDA_MAX_INDEX else NONCDDA_MAX_INDEX) /\
+  match iv_00 iv with Some i => ix_num i = 0 | None => True end /\ ix_num (iv_01 iv) = 1.
+
+Lemma indexvec_try_from_list iv :
+  match iv_00 iv with Some i => ix_num i = 0 | None => True end -> ix_num (iv_01 iv) = 1 ->
+  indexvec_try_from (indexvec_list iv) = Ok iv.
+Proof.
+  destruct iv as [[i0|] i1 rest]; cbn [iv_00 iv_01 indexvec_list app]; intros H0 H1; cbn [indexvec_try_from].
+  - rewrite H0, H1. reflexivity.
+  - rewrite H1. reflexivity.
+Qed.
+Lemma indexvec_try_from_inv l iv : indexvec_try_from l = Ok iv ->
+  indexvec_list iv = l /\ match iv_00 iv with Some i => ix_num i = 0 | None => True end /\ ix_num (iv_01 iv) = 1.
+Proof.
+  unfold indexvec_try_from. destruct l as [|i0 rest]; [discriminate|].
+  destruct (N.eqb_spec (ix_num i0) 0) as [E0|_].
+  - destruct rest as [|i1 rest']; [discriminate|]. destruct (N.eqb_spec (ix_num i1) 1) as [E1|]; [|discriminate].
+    intros H. apply Ok_inj in H. subst iv. cbn. auto.
+  - destruct (N.eqb_spec (ix_num i0) 1) as [E1|]; [|discriminate].
+    intros H. apply Ok_inj in H. subst iv. cbn. auto.
+Qed.
+
+(* ---- tracks *)
+Definition ty_track (cdda : bool) (t : track) : Prop :=
+  ty_offset cdda (tr_off t) /\ (1 <= tr_num t /\ tr_num t < 256) /\ ty_isrc (tr_isrc t) /\ ty_indexvec cdda (tr_ix t).
+
+Definition track_bytes (t : track) : list N :=
+  let ixs := indexvec_list (tr_ix t) in
+  be_bytes 8 (tr_off t) ++ be_bytes 1 (tr_num t) ++ write_isrc (tr_isrc t) ++
+  write_flags (tr_non_audio t) (tr_pre t) ++ zerosN 13 ++ be_bytes 1 (lenN ixs) ++ enc_all write_index ixs.
+
+Lemma write_indexes_enc l : write_indexes l = enc_all write_index l.
+Proof. induction l as [|i r IH]; cbn [write_indexes enc_all]; [reflexivity|]. rewrite IH. reflexivity. Qed.
+
+Lemma lenN_enc_all_index l : lenN (enc_all write_index l) = 12 * lenN l.
+Proof. induction l as [|i r IH]; cbn [enc_all lenN]; [reflexivity|]. rewrite lenN_app, lenN_write_index, IH. lia. Qed.
+
+Lemma ty_indexvec_len cdda iv : ty_indexvec cdda iv -> lenN (indexvec_list iv) <= 255.
+Proof. intros (_ & _ & L & _). unfold CDDA_MAX_INDEX, NONCDDA_MAX_INDEX in L. destruct cdda; lia. Qed.
+
+Lemma write_track_bytes cdda t : ty_track cdda t -> write_track t = Ok (track_bytes t).
+Proof.
+  intros (_ & _ & _ & Tiv). unfold write_track. pose proof (ty_indexvec_len cdda _ Tiv) as L.
+  destruct (N.ltb_spec 255 (lenN (indexvec_list (tr_ix t)))); [lia|]. rewrite write_indexes_enc. reflexivity.
+Qed.
+
+Lemma lenN_track_bytes cdda t : ty_track cdda t -> lenN (track_bytes t) = 36 + 12 * lenN (indexvec_list (tr_ix t)).
+Proof.
+  intros (_ & _ & Ti & _). unfold track_bytes.
+  rewrite !lenN_app, !lenN_be_bytes, lenN_write_flags, lenN_zerosN, (lenN_write_isrc _ Ti), lenN_enc_all_index.
+  change (N.of_nat 8) with 8. change (N.of_nat 1) with 1. lia.
+Qed.
+
+Lemma read_track_write cdda t rest : ty_track cdda t ->
+  read_track utf8_valid cdda (track_bytes t ++ rest) = Ok (t, rest).
+Proof.
+  intros (To & [Tn1 Tn2] & Ti & Tiv). pose proof (ty_indexvec_len cdda _ Tiv) as L255.
+  destruct Tiv as (Fi & Ci & Lm & H0 & H1).
+  unfold read_track, track_bytes. rewrite <- !app_assoc.
+  rewrite (pbind_eq (read_offset cdda) _ _ (tr_off t) _) by (apply read_offset_write, To).
+  rewrite (pbind_eq (read_be 1) _ _ (tr_num t) _) by (apply read_be1_app, Tn2).
+  destruct (N.eqb_spec (tr_num t) 0); [lia|].
+  rewrite (pbind_eq (read_isrc utf8_valid) _ _ (tr_isrc t) _) by (apply read_isrc_write, Ti).
+  rewrite (pbind_eq read_flags _ _ (tr_non_audio t, tr_pre t) _) by apply read_flags_write.
+  rewrite (pbind_eq (skip 13) _ _ tt _) by (apply skip_app_len, lenN_zerosN).
+  rewrite (pbind_eq (read_be 1) _ _ (lenN (indexvec_list (tr_ix t))) _) by (apply read_be1_app; lia).
+  erewrite pbind_eq;
+    [|apply (try_collect_enc index_valid_first index_is_next _ (read_index cdda) write_index (ty_index cdda) (read_index_write cdda))].
+  - cbn [rev app]. unfold plift, pbind. rewrite (indexvec_try_from_list _ H0 H1). unfold pret. destruct t; reflexivity.
+  - exact Fi.
+  - rewrite !app_length. pose proof (lenN_enc_all_index (indexvec_list (tr_ix t))) as G. rewrite !lenN_length in G. lia.
+  - destruct cdda; cbn [N.add]; lia.
+  - exact Ci.
+Qed.
+
+Lemma read_track_inv cdda s t r : Forall byte s -> read_track utf8_valid cdda s = Ok (t, r) ->
+  ty_track cdda t /\ exists c, s = c ++ r /\ lenN c = lenN (track_bytes t).
+Proof.
+  intros Hs H. unfold read_track in H.
+  inv_bind H. apply read_offset_inv in E; [|exact Hs]. destruct E as [To ->]. pose proof (Forall_app_r _ _ _ Hs) as Hs1.
+  inv_bind H. apply (read_be_ok 1) in E; [|exact Hs1]. destruct E as [-> Bn]. change (256 ^ N.of_nat 1) with 256 in Bn.
+  pose proof (Forall_app_r _ _ _ Hs1) as Hs2.
+  destruct (N.eqb_spec a0 0) as [|Hn0]; [discriminate|].
+  inv_bind H. apply read_isrc_inv in E; [|exact Hs2]. destruct E as (Ti & ci & -> & Lci). pose proof (Forall_app_r _ _ _ Hs2) as Hs3.
+  inv_bind H. destruct a2 as [na pre]. apply read_flags_inv in E. destruct E as (cf & -> & Lcf). pose proof (Forall_app_r _ _ _ Hs3) as Hs4.
+  inv_bind H. destruct a2. apply skip_ok in E. destruct E as (cs & -> & Lcs). pose proof (Forall_app_r _ _ _ Hs4) as Hs5.
+  inv_bind H. apply (read_be_ok 1) in E; [|exact Hs5]. destruct E as [-> Bc]. change (256 ^ N.of_nat 1) with 256 in Bc.
+  pose proof (Forall_app_r _ _ _ Hs5) as Hs6.
+  inv_bind H.
+  apply (try_collect_inv index_valid_first index_is_next _ (read_index cdda) write_index (ty_index cdda) (read_index_inv cdda)) in E; [|exact Hs6].
+  destruct E as (l & El & Ll & Gl & Cl & Ml & (c6 & -> & Lc6) & Hr). cbn [rev app] in El. subst a3.
+  inv_bind H. unfold plift in E. destruct (indexvec_try_from l) as [iv| |] eqn:Eiv; try discriminate.
+  apply Ok_inj in E. injection E as <- <-. unfold pret in H. apply Ok_inj in H. injection H as <- <-.
+  apply indexvec_try_from_inv in Eiv. destruct Eiv as (Hl & H0 & H1).
+  assert (Tiv : ty_indexvec cdda iv).
+  { unfold ty_indexvec. rewrite Hl. split; [exact Gl|]. split; [exact Cl|]. split; [|auto].
+    destruct l as [|x q]; [cbn; destruct cdda; cbn; lia|].
+    assert (0 + a2 <= (if cdda then CDDA_MAX_INDEX else NONCDDA_MAX_INDEX)) by (apply Ml; discriminate). lia. }
+  assert (Tt : ty_track cdda (mkTrack a a0 a1 na pre iv)).
+  { unfold ty_track. cbn [tr_off tr_num tr_isrc tr_ix]. split; [exact To|]. split; [lia|]. split; assumption. }
+  split; [exact Tt|].
+  exists (be_bytes 8 a ++ be_bytes 1 a0 ++ ci ++ cf ++ cs ++ be_bytes 1 a2 ++ c6).
+  rewrite <- !app_assoc. split; [reflexivity|].
+  rewrite (lenN_track_bytes cdda _ Tt). cbn [tr_ix]. rewrite Hl.
+  rewrite !lenN_app, !lenN_be_bytes, Lci, Lcf, Lcs, Lc6, lenN_enc_all_index.
+  change (N.of_nat 8) with 8. change (N.of_nat 1) with 1. lia.
+Qed.
+
+(* ---- lead-out *)
+Definition ty_leadout (cdda : bool) (lo : leadout) : Prop := ty_offset cdda (lo_off lo) /\ ty_isrc (lo_isrc lo).
+
+Lemma lenN_write_leadout cdda lo : ty_leadout cdda lo -> lenN (write_leadout cdda lo) = 36.
+Proof.
+  intros [_ Ti]. unfold write_leadout.
+  rewrite !lenN_app, !lenN_be_bytes, lenN_write_flags, lenN_zerosN, (lenN_write_isrc _ Ti). reflexivity.
+Qed.
+
+Lemma read_leadout_write cdda lo rest : ty_leadout cdda lo ->
+  read_leadout utf8_valid cdda (write_leadout cdda lo ++ rest) = Ok (lo, rest).
+Proof.
+  intros [To Ti]. unfold read_leadout, write_leadout. rewrite <- !app_assoc.
+  rewrite (pbind_eq (read_offset cdda) _ _ (lo_off lo) _) by (apply read_offset_write, To).
+  rewrite (pbind_eq (read_be 1) _ _ (if cdda then LEADOUT_CDDA else LEADOUT_NONCDDA) _) by (apply read_be1_app; destruct cdda; reflexivity).
+  rewrite N.eqb_refl. cbn [negb].
+  rewrite (pbind_eq (read_isrc utf8_valid) _ _ (lo_isrc lo) _) by (apply read_isrc_write, Ti).
+  rewrite (pbind_eq read_flags _ _ (lo_non_audio lo, lo_pre lo) _) by apply read_flags_write.
+  rewrite (pbind_eq (skip 13) _ _ tt _) by (apply skip_app_len, lenN_zerosN).
+  rewrite (pbind_eq (read_be 1) _ _ 0 rest) by (apply read_be1_app; reflexivity).
+  destruct lo; reflexivity.
+Qed.
+
+Lemma read_leadout_inv cdda s lo r : Forall byte s -> read_leadout utf8_valid cdda s = Ok (lo, r) ->
+  ty_leadout cdda lo /\ exists c, s = c ++ r /\ lenN c = 36.
+Proof.
+  intros Hs H. unfold read_leadout in H.
+  inv_bind H. apply read_offset_inv in E; [|exact Hs]. destruct E as [To ->]. pose proof (Forall_app_r _ _ _ Hs) as Hs1.
+  inv_bind H. apply (read_be_ok 1) in E; [|exact Hs1]. destruct E as [-> Bn]. pose proof (Forall_app_r _ _ _ Hs1) as Hs2.
+  destruct (negb _); [discriminate|].
+  inv_bind H. apply read_isrc_inv in E; [|exact Hs2]. destruct E as (Ti & ci & -> & Lci). pose proof (Forall_app_r _ _ _ Hs2) as Hs3.
+  inv_bind H. destruct a2 as [na pre]. apply read_flags_inv in E. destruct E as (cf & -> & Lcf). pose proof (Forall_app_r _ _ _ Hs3) as Hs4.
+  inv_bind H. destruct a2. apply skip_ok in E. destruct E as (cs & -> & Lcs). pose proof (Forall_app_r _ _ _ Hs4) as Hs5.
+  inv_bind H. apply (read_be_ok 1) in E; [|exact Hs5]. destruct E as [-> Bc].
+  destruct (a2 =? 0); [|discriminate]. unfold pret in H. apply Ok_inj in H. injection H as <- <-.
+  split; [split; assumption|].
+  exists (be_bytes 8 a ++ be_bytes 1 a0 ++ ci ++ cf ++ cs ++ be_bytes 1 a2). rewrite <- !app_assoc. split; [reflexivity|].
+  rewrite !lenN_app, !lenN_be_bytes, Lci, Lcf, Lcs. reflexivity.
+Qed.
+
+(* ---- catalog number field: digits then zero bytes *)
+Lemma zerosN_add a b : zerosN (a + b) = zerosN a ++ zerosN b.
+Proof.
+  induction a using N.peano_ind; [reflexivity|].
+  replace (N.succ a + b) with (N.succ (a + b)) by lia. rewrite !zerosN_succ, IHa. reflexivity.
+Qed.
+Lemma zerosN_snoc n : zerosN n ++ [0] = 0 :: zerosN n.
+Proof.
+  induction n using N.peano_ind; [reflexivity|]. rewrite zerosN_succ. cbn [app]. rewrite IHn. reflexivity.
+Qed.
+Lemma rev_zerosN n : rev (zerosN n) = zerosN n.
+Proof.
+  induction n using N.peano_ind; [reflexivity|]. rewrite zerosN_succ. cbn [rev]. rewrite IHn. apply zerosN_snoc.
+Qed.
+Lemma trim_nulls_rev_zeros n l : trim_nulls_rev (zerosN n ++ l) = trim_nulls_rev l.
+Proof. induction n using N.peano_ind; [reflexivity|]. rewrite zerosN_succ. cbn [app trim_nulls_rev]. exact IHn. Qed.
+
+Lemma trim_nulls_digits d k : forallb is_digit d = true -> trim_nulls (d ++ zerosN k) = d.
+Proof.
+  intros D. unfold trim_nulls. rewrite rev_app_distr, rev_zerosN, trim_nulls_rev_zeros.
+  assert (H : trim_nulls_rev (rev d) = rev d).
+  { destruct (rev d) as [|c q] eqn:E; [reflexivity|].
+    assert (Hc : In c d) by (apply in_rev; rewrite E; left; reflexivity).
+    rewrite forallb_forall in D. specialize (D c Hc). apply is_digit_spec in D.
+    destruct c; [lia|reflexivity]. }
+  rewrite H. apply rev_involutive.
+Qed.
+
+Lemma trim_nulls_rev_decomp l : exists k, l = zerosN k ++ trim_nulls_rev l.
+Proof.
+  induction l as [|c q IH]; [exists 0; reflexivity|]. destruct c as [|p].
+  - cbn [trim_nulls_rev]. destruct IH as [k E]. exists (N.succ k). rewrite zerosN_succ. cbn [app]. f_equal. exact E.
+  - exists 0. reflexivity.
+Qed.
+Lemma trim_nulls_decomp s : exists k, s = trim_nulls s ++ zerosN k.
+Proof.
+  unfold trim_nulls. destruct (trim_nulls_rev_decomp (rev s)) as [k E]. exists k.
+  rewrite <- (rev_involutive s) at 1. rewrite E at 1. rewrite rev_app_distr, rev_zerosN. reflexivity.
+Qed.
+
+Lemma takeN_pad d n : lenN d <= n -> takeN n (d ++ zerosN n) = d ++ zerosN (n - lenN d).
+Proof.
+  intros L. remember (n - lenN d) as k eqn:Ek.
+  assert (En : n = k + lenN d) by lia.
+  assert (E1 : zerosN n = zerosN k ++ zerosN (lenN d)) by (rewrite En; apply zerosN_add).
+  rewrite E1, app_assoc.
+  assert (E2 : n = lenN (d ++ zerosN k)) by (rewrite lenN_app, lenN_zerosN; lia).
+  rewrite E2 at 1. apply takeN_app.
+Qed.
+
+(* ---- the whole block *)
+Definition ty_cuesheet (c : cuesheet) : Prop :=
+  match c with
+  | CueCDDA cat lead_in tracks lo =>
+    match cat with Some d => lenN d = 13 /\ forallb is_digit d = true | None => True end /\
+    lead_in < 18446744073709551616 /\
+    Forall (ty_track true) tracks /\ is_contiguous track_valid_first track_is_next tracks = true /\
+    lenN tracks <= CDDA_MAX_TRACKS /\ ty_leadout true lo
+  | CueNonCDDA cat tracks lo =>
+    forallb is_digit cat = true /\
+    Forall (ty_track false) tracks /\ is_contiguous track_valid_first track_is_next tracks = true /\
+    lenN tracks <= NONCDDA_MAX_TRACKS /\ ty_leadout false lo
+  end.
+
+Lemma write_tracks_enc cdda : forall l, Forall (ty_track cdda) l -> write_tracks l = Ok (enc_all track_bytes l).
+Proof.
+  induction 1 as [|t l Ht Hl IH]; [reflexivity|]. cbn [write_tracks enc_all].
+  rewrite (write_track_bytes cdda t Ht), IH. reflexivity.
+Qed.
+
+Lemma lenN_enc_all_tracks cdda : forall l, Forall (ty_track cdda) l -> 36 * lenN l <= lenN (enc_all track_bytes l).
+Proof.
+  induction 1 as [|t l Ht Hl IH]; cbn [enc_all lenN]; [lia|]. rewrite lenN_app, (lenN_track_bytes cdda t Ht). lia.
+Qed.
+
+Definition cue_bytes (c : cuesheet) : list N :=
+  match c with
+  | CueCDDA cat lead_in tracks lo =>
+    match cat with Some n => takeN CATALOG_LEN (n ++ zerosN CATALOG_LEN) | None => zerosN CATALOG_LEN end ++
+    be_bytes 8 lead_in ++ [128] ++ zerosN 258 ++ be_bytes 1 (lenN tracks + 1) ++ enc_all track_bytes tracks ++ write_leadout true lo
+  | CueNonCDDA cat tracks lo =>
+    takeN CATALOG_LEN (cat ++ zerosN CATALOG_LEN) ++ be_bytes 8 0 ++ [0] ++ zerosN 258 ++
+    be_bytes 1 (lenN tracks + 1) ++ enc_all track_bytes tracks ++ write_leadout false lo
+  end.
+
+Lemma write_cuesheet_bytes c bs : ty_cuesheet c -> write_cuesheet c = Ok bs -> bs = cue_bytes c.
+Proof.
+  destruct c as [cat lead_in tracks lo|cat tracks lo]; cbn [ty_cuesheet write_cuesheet cue_bytes].
+  - intros (_ & _ & Ft & _ & Lt & _). unfold CDDA_MAX_TRACKS in Lt.
+    destruct (N.ltb_spec 255 (lenN tracks + 1)); [lia|]. rewrite (write_tracks_enc true tracks Ft). cbn [bind].
+    intros HW. apply Ok_inj in HW. auto.
+  - intros (_ & Ft & _ & Lt & _). unfold NONCDDA_MAX_TRACKS in Lt.
+    destruct (CATALOG_LEN <? lenN cat); [discriminate|].
+    destruct (N.ltb_spec 255 (lenN tracks + 1)); [lia|]. rewrite (write_tracks_enc false tracks Ft). cbn [bind].
+    intros HW. apply Ok_inj in HW. auto.
+Qed.
+
+Lemma flag_byte_cdda : rd 1 (bits_of_bytes [128]) = Some (1, wr 7 0).
+Proof. reflexivity. Qed.
+Lemma flag_byte_noncdda : rd 1 (bits_of_bytes [0]) = Some (0, wr 7 0).
+Proof. reflexivity. Qed.
+
+Lemma track_is_next_np' a b : is_panic (track_is_next a b) = false.
+Proof. reflexivity. Qed.
+
+Lemma lenN_catalog_field d : lenN d <= CATALOG_LEN -> lenN (takeN CATALOG_LEN (d ++ zerosN CATALOG_LEN)) = CATALOG_LEN.
+Proof. intros L. rewrite takeN_pad by exact L. rewrite lenN_app, lenN_zerosN. lia. Qed.
+
+Lemma cuesheet_write_read c bs r : ty_cuesheet c -> write_cuesheet c = Ok bs ->
+  read_cuesheet utf8_valid (bs ++ r) = Ok (c, r).
+Proof.
+  intros T W. pose proof (write_cuesheet_bytes c bs T W) as ->.
+  destruct c as [cat lead_in tracks lo|cat tracks lo]; cbn [ty_cuesheet cue_bytes] in *.
+  - destruct T as (Tc & Tl & Ft & Ct & Lt & Tlo). unfold CDDA_MAX_TRACKS in Lt.
+    set (catf := match cat with Some n => takeN CATALOG_LEN (n ++ zerosN CATALOG_LEN) | None => zerosN CATALOG_LEN end).
+    assert (Lc : lenN catf = CATALOG_LEN).
+    { unfold catf. destruct cat as [d|]; [|apply lenN_zerosN]. destruct Tc as [Ld _]. apply lenN_catalog_field. unfold CATALOG_LEN. lia. }
+    assert (Tn : plift (match trim_nulls catf with
+                        | [] => Ok None
+                        | _ => if forallb is_digit (trim_nulls catf)
+                               then (if lenN (trim_nulls catf) =? 13 then Ok (Some (trim_nulls catf)) else Err EOther)
+                               else Err EOther
+                        end) = plift (Ok cat)).
+    { unfold catf. destruct cat as [d|].
+      - destruct Tc as [Ld Dd]. rewrite takeN_pad by (unfold CATALOG_LEN; lia). rewrite (trim_nulls_digits d _ Dd).
+        destruct d as [|d0 dr]; [cbn in Ld; lia|]. rewrite Dd, Ld. reflexivity.
+      - rewrite <- (app_nil_l (zerosN CATALOG_LEN)). rewrite trim_nulls_digits by reflexivity. reflexivity. }
+    unfold read_cuesheet. rewrite <- !app_assoc.
+    rewrite (pbind_eq (take CATALOG_LEN) _ _ catf _) by (apply take_app_len, Lc).
+    rewrite (pbind_eq (read_be 8) _ _ lead_in _) by (apply read_be8_app, Tl).
+    rewrite (pbind_eq (take 1) _ _ [128] _) by (apply take_app_len; reflexivity).
+    rewrite flag_byte_cdda.
+    rewrite (pbind_eq (skip 258) _ _ tt _) by (apply skip_app_len, lenN_zerosN).
+    rewrite (pbind_eq (read_be 1) _ _ (lenN tracks + 1) _) by (apply read_be1_app; lia).
+    change (1 =? 1) with true. cbv iota. rewrite Tn. unfold plift at 1. unfold pbind at 1.
+    destruct (N.eqb_spec (lenN tracks + 1) 0); [lia|]. replace (lenN tracks + 1 - 1) with (lenN tracks) by lia.
+    destruct (N.ltb_spec 99 (lenN tracks)); [lia|]. cbn [orb].
+    erewrite pbind_eq;
+      [|apply (try_collect_enc track_valid_first track_is_next _ (read_track utf8_valid true) track_bytes (ty_track true) (read_track_write true))].
+    + cbn [rev app]. rewrite (pbind_eq (read_leadout utf8_valid true) _ _ lo r) by (apply read_leadout_write, Tlo). reflexivity.
+    + exact Ft.
+    + rewrite !app_length. pose proof (lenN_enc_all_tracks true tracks Ft) as G. rewrite !lenN_length in G. lia.
+    + unfold CDDA_MAX_TRACKS. lia.
+    + exact Ct.
+  - destruct T as (Dc & Ft & Ct & Lt & Tlo). unfold NONCDDA_MAX_TRACKS in Lt.
+    unfold write_cuesheet in W. destruct (N.ltb_spec CATALOG_LEN (lenN cat)) as [|Lcat]; [discriminate|].
+    set (catf := takeN CATALOG_LEN (cat ++ zerosN CATALOG_LEN)).
+    assert (Lc : lenN catf = CATALOG_LEN) by (apply lenN_catalog_field, Lcat).
+    assert (Tn : trim_nulls catf = cat) by (unfold catf; rewrite takeN_pad by exact Lcat; apply trim_nulls_digits, Dc).
+    unfold read_cuesheet. rewrite <- !app_assoc.
+    rewrite (pbind_eq (take CATALOG_LEN) _ _ catf _) by (apply take_app_len, Lc).
+    rewrite (pbind_eq (read_be 8) _ _ 0 _) by (apply read_be8_app; reflexivity).
+    rewrite (pbind_eq (take 1) _ _ [0] _) by (apply take_app_len; reflexivity).
+    rewrite flag_byte_noncdda.
+    rewrite (pbind_eq (skip 258) _ _ tt _) by (apply skip_app_len, lenN_zerosN).
+    rewrite (pbind_eq (read_be 1) _ _ (lenN tracks + 1) _) by (apply read_be1_app; lia).
+    change (0 =? 1) with false. cbv iota. rewrite Tn, Dc. cbn [negb].
+    destruct (N.eqb_spec (lenN tracks + 1) 0); [lia|]. replace (lenN tracks + 1 - 1) with (lenN tracks) by lia.
+    erewrite pbind_eq;
+      [|apply (try_collect_enc track_valid_first track_is_next _ (read_track utf8_valid false) track_bytes (ty_track false) (read_track_write false))].
+    + cbn [rev app]. rewrite (pbind_eq (read_leadout utf8_valid false) _ _ lo r) by (apply read_leadout_write, Tlo). reflexivity.
+    + exact Ft.
+    + rewrite !app_length. pose proof (lenN_enc_all_tracks false tracks Ft) as G. rewrite !lenN_length in G. lia.
+    + unfold NONCDDA_MAX_TRACKS. lia.
+    + exact Ct.
+Qed.
+
+Lemma lenN_trim_nulls_le s : lenN (trim_nulls s) <= lenN s.
+Proof. destruct (trim_nulls_decomp s) as [k E]. rewrite E at 2. rewrite lenN_app. lia. Qed.
+
+Lemma lenN_cue_bytes c : ty_cuesheet c ->
+  (match c with CueNonCDDA cat _ _ => lenN cat <= CATALOG_LEN | _ => True end) ->
+  lenN (cue_bytes c) = 396 + lenN (enc_all track_bytes (match c with CueCDDA _ _ t _ => t | CueNonCDDA _ t _ => t end)) + 36.
+Proof.
+  destruct c as [cat lead_in tracks lo|cat tracks lo]; cbn [ty_cuesheet cue_bytes].
+  - intros (Tc & _ & _ & _ & _ & Tlo) _.
+    assert (Lc : lenN (match cat with Some n => takeN CATALOG_LEN (n ++ zerosN CATALOG_LEN) | None => zerosN CATALOG_LEN end) = CATALOG_LEN).
+    { destruct cat as [d|]; [|apply lenN_zerosN]. destruct Tc as [Ld _]. apply lenN_catalog_field. unfold CATALOG_LEN. lia. }
+    rewrite !lenN_app, Lc, !lenN_be_bytes, lenN_zerosN, (lenN_write_leadout _ _ Tlo). unfold CATALOG_LEN. cbn [lenN].
+    change (N.of_nat 8) with 8. change (N.of_nat 1) with 1. lia.
+  - intros (_ & _ & _ & _ & Tlo) Lcat.
+    rewrite !lenN_app, (lenN_catalog_field _ Lcat), !lenN_be_bytes, lenN_zerosN, (lenN_write_leadout _ _ Tlo). unfold CATALOG_LEN. cbn [lenN].
+    change (N.of_nat 8) with 8. change (N.of_nat 1) with 1. lia.
+Qed.
+
+Lemma cuesheet_read_inv s c r : Forall byte s -> read_cuesheet utf8_valid s = Ok (c, r) ->
+  ty_cuesheet c /\ exists bs, write_cuesheet c = Ok bs /\ lenN s = lenN bs + lenN r.
+Proof.
+  intros Hs H. unfold read_cuesheet in H.
+  inv_bind H. apply take_ok in E. destruct E as [-> Lcat]. pose proof (Forall_app_r _ _ _ Hs) as Hs1.
+  inv_bind H. apply (read_be_ok 8) in E; [|exact Hs1]. destruct E as [-> Bl]. change (256 ^ N.of_nat 8) with 18446744073709551616 in Bl.
+  pose proof (Forall_app_r _ _ _ Hs1) as Hs2.
+  inv_bind H. apply take_ok in E. destruct E as [-> Lfl]. pose proof (Forall_app_r _ _ _ Hs2) as Hs3.
+  destruct (rd 1 (bits_of_bytes a1)) as [[is_cdda x]|]; [|discriminate].
+  inv_bind H. destruct a2. apply skip_ok in E. destruct E as (csk & -> & Lsk). pose proof (Forall_app_r _ _ _ Hs3) as Hs4.
+  inv_bind H. apply (read_be_ok 1) in E; [|exact Hs4]. destruct E as [-> Bt]. change (256 ^ N.of_nat 1) with 256 in Bt.
+  pose proof (Forall_app_r _ _ _ Hs4) as Hs5.
+  pose proof (lenN_trim_nulls_le a) as Ltn.
+  destruct (is_cdda =? 1).
+  - inv_bind H.
+    assert (Tcat : match a3 with Some d => lenN d = 13 /\ forallb is_digit d = true | None => True end /\ s = s0).
+    { unfold plift in E. destruct (trim_nulls a) as [|d0 dr] eqn:Et.
+      - apply Ok_inj in E. injection E as <- <-. auto.
+      - destruct (forallb is_digit (d0 :: dr)) eqn:D; [|discriminate].
+        destruct (N.eqb_spec (lenN (d0 :: dr)) 13) as [L13|]; [|discriminate].
+        apply Ok_inj in E. injection E as <- <-. auto. }
+    destruct Tcat as [Tcat ->]. clear E.
+    destruct ((a2 =? 0) || (99 <? a2 - 1)) eqn:Ecount; [discriminate|].
+    apply orb_false_elim in Ecount. destruct Ecount as [Ez E99]. apply N.eqb_neq in Ez. apply N.ltb_ge in E99.
+    inv_bind H.
+    apply (try_collect_inv track_valid_first track_is_next _ (read_track utf8_valid true) track_bytes (ty_track true) (read_track_inv true)) in E; [|exact Hs5].
+    destruct E as (l & El & Ll & Gl & Cl & Ml & (ct & -> & Lct) & Hr). cbn [rev app] in El. subst a4.
+    inv_bind H. apply read_leadout_inv in E; [|exact Hr]. destruct E as (Tlo & clo & -> & Llo).
+    unfold pret in H. apply Ok_inj in H. injection H as <- <-.
+    assert (Lmax : lenN l <= CDDA_MAX_TRACKS).
+    { destruct l as [|y q]; [cbn; unfold CDDA_MAX_TRACKS; lia|]. assert (0 + (a2 - 1) <= CDDA_MAX_TRACKS) by (apply Ml; discriminate). lia. }
+    assert (T : ty_cuesheet (CueCDDA a3 a0 l a4)).
+    { cbn [ty_cuesheet]. split; [exact Tcat|]. split; [exact Bl|]. split; [exact Gl|]. split; [exact Cl|]. split; [exact Lmax|exact Tlo]. }
+    split; [exact T|]. exists (cue_bytes (CueCDDA a3 a0 l a4)). split.
+    + cbn [write_cuesheet cue_bytes]. unfold CDDA_MAX_TRACKS in Lmax.
+      destruct (N.ltb_spec 255 (lenN l + 1)); [lia|]. rewrite (write_tracks_enc true l Gl). reflexivity.
+    + rewrite (lenN_cue_bytes _ T I). rewrite !lenN_app, Lcat, Lfl, Lsk, Lct, Llo, !lenN_be_bytes.
+      unfold CATALOG_LEN. change (N.of_nat 8) with 8. change (N.of_nat 1) with 1. lia.
+  - destruct (forallb is_digit (trim_nulls a)) eqn:D; [|discriminate]. cbn [negb] in H.
+    destruct (N.eqb_spec a2 0) as [|Ez]; [discriminate|].
+    inv_bind H.
+    apply (try_collect_inv track_valid_first track_is_next _ (read_track utf8_valid false) track_bytes (ty_track false) (read_track_inv false)) in E; [|exact Hs5].
+    destruct E as (l & El & Ll & Gl & Cl & Ml & (ct & -> & Lct) & Hr). cbn [rev app] in El. subst a3.
+    inv_bind H. apply read_leadout_inv in E; [|exact Hr]. destruct E as (Tlo & clo & -> & Llo).
+    unfold pret in H. apply Ok_inj in H. injection H as <- <-.
+    assert (Lmax : lenN l <= NONCDDA_MAX_TRACKS).
+    { destruct l as [|y q]; [cbn; unfold NONCDDA_MAX_TRACKS; lia|]. assert (0 + (a2 - 1) <= NONCDDA_MAX_TRACKS) by (apply Ml; discriminate). lia. }
+    assert (T : ty_cuesheet (CueNonCDDA (trim_nulls a) l a3)).
+    { cbn [ty_cuesheet]. split; [exact D|]. split; [exact Gl|]. split; [exact Cl|]. split; [exact Lmax|exact Tlo]. }
+    assert (Lc128 : lenN (trim_nulls a) <= CATALOG_LEN) by lia.
+    split; [exact T|]. exists (cue_bytes (CueNonCDDA (trim_nulls a) l a3)). split.
+    + cbn [write_cuesheet cue_bytes]. unfold NONCDDA_MAX_TRACKS in Lmax.
+      destruct (N.ltb_spec CATALOG_LEN (lenN (trim_nulls a))); [lia|].
+      destruct (N.ltb_spec 255 (lenN l + 1)); [lia|]. rewrite (write_tracks_enc false l Gl). reflexivity.
+    + rewrite (lenN_cue_bytes _ T Lc128). rewrite !lenN_app, Lcat, Lfl, Lsk, Lct, Llo, !lenN_be_bytes.
+      unfold CATALOG_LEN. change (N.of_nat 8) with 8. change (N.of_nat 1) with 1. lia.
 Qed.
 End CuesheetCodec.
